@@ -14,6 +14,7 @@ Full statement (not provable, because the unchanged library violates it at the s
   ∀ e, wf e → parseTop utapT (lprint e) = some e.
 -/
 import UtapModel.Lemmas.PrintLemmas
+import UtapModel.Lemmas.StrLit
 import UtapModel.Props.C02
 
 namespace UtapModel.C03
@@ -48,5 +49,41 @@ example : good genData mt false
 example : toksText (lprint genData mt
     (.bin (tokOfText "*") (.bin (tokOfText "+") (.atom (.ident "a")) (.atom (.ident "b"))) (.atom (.ident "c")))) = "( a + b ) * c" := by
   decide +kernel
+
+/-! ### string constants at the text level
+
+`expression_t::print` writes a string constant with `std::quoted`; the lexer rule `\"[^\"]+\"` takes the token back and
+`make_constant` reads its value with `std::quoted` again (Model/StrLit.lean). -/
+
+open UtapModel.StrLit in
+/-- **a printed string constant reads back as the same value**, with whatever follows it left in the input -- for every non-empty
+    value without a double quote (the values the lexer can produce), backslashes and everything else included -/
+theorem C03_string_roundtrip (s rest : List Char) (hne : s ≠ []) (hq : NoQuote s) : roundTrip s rest = some (s, rest) := by
+  have hsp := spanNoQuote_append (escape s) rest (noQuote_escape s hq)
+  have hne' : (escape s).isEmpty = false := by
+    cases h : escape s with
+    | nil => exact absurd h (escape_ne_nil s hne)
+    | cons _ _ => rfl
+  have htxt : quote s ++ rest = dq :: (escape s ++ dq :: rest) := by simp [quote]
+  have hun : unquote (dq :: (escape s ++ [dq])) = s := by
+    simp only [unquote, beq_self_eq_true, if_true]
+    exact unescape_escape s []
+  simp only [roundTrip, htxt, lexStr, beq_self_eq_true, if_true, hsp, hne', Bool.false_eq_true, if_false, Option.map_some, hun]
+
+open UtapModel.StrLit in
+/-- reading back never depends on what the value contains (`std::quoted` is its own inverse); the hypothesis above is the lexer's -/
+theorem C03_quoted_inverse (s : List Char) : unquote (quote s) = s := by
+  simp only [unquote, quote, beq_self_eq_true, if_true]
+  exact unescape_escape s []
+
+open UtapModel.StrLit in
+/-- the hypotheses cannot be dropped: a value containing a double quote, and the empty value, do not come back -/
+theorem C03_string_witness :
+    roundTrip "a\"b".toList [] ≠ some ("a\"b".toList, []) ∧ roundTrip [] [] = none := by decide
+
+open UtapModel.StrLit in
+example : NoQuote "C:\\dir\\f.json".toList ∧ "C:\\dir\\f.json".toList ≠ [] := by
+  refine ⟨?_, by decide⟩
+  intro c hc; revert c; decide
 
 end UtapModel.C03
